@@ -27,6 +27,9 @@ class Recorder:
         self.module, self.table = module, table
         self.events = []
         self.saved = {}
+        # the binding is by helper name and by "first positional argument = core index": a refactoring that renames or
+        # re-shapes a helper un-binds the recorder (the trace is then skipped with a note, never reported)
+        self.bound = all(name in module.__dict__ for name in table)
 
     def __enter__(self):
         for name, ev in self.table.items():
@@ -36,7 +39,11 @@ class Recorder:
             self.saved[name] = orig
 
             def wrapper(*a, _orig=orig, _ev=ev, **kw):
-                i = int(a[0])
+                try:
+                    i = int(a[0])
+                except Exception:
+                    self.bound = False
+                    return _orig(*a, **kw)
                 if _ev == 'Update1':
                     d = a[-1] if isinstance(a[-1], str) else kw.get('direction', 'forward')
                     self.events.append(['Update1F' if d == 'forward' else 'Update1B', i])
@@ -70,7 +77,7 @@ def record_all(seed=0):
                 fn()
             except Exception as e:
                 raised = '%s: %s' % (type(e).__name__, e)
-        out.append(dict(driver=driver, D=D, events=r.events, raised=raised))
+        out.append(dict(driver=driver, D=D, events=r.events, raised=raised, bound=r.bound))
 
     for D in (1, 2, 3, 4):
         dims = [2] * D
